@@ -1229,6 +1229,25 @@ package mcp
 //@   ensures @an-unresumable-call-stream-that-ends-fails-the-call !result.2 && result.0 == "" && forCall != nil ==> calls(synthetic) >= 1
 //@   ensures @closed-paths-hand-back-nothing result.2 ==> result.0 == "" && result.1 == 0
 
+// handleJSON (application/json reply to a POST): the body is read and closed; a read that fails because the caller
+// abandoned the request (the request's own context is done) leaves the connection alone - one cancelled call must
+// not make the session unusable (C04) - and any other read or decode failure fails the connection; only a decoded
+// reply is handed to the session.
+//@ func (*streamableClientConn).handleJSON [C04, C09]
+//@   track (*streamableClientConn).fail as failConn
+//@   track ctx.Err as cancelled
+//@   track io.ReadAll as readBody
+//@   track DecodeMessage as decode
+//@   track Close as closeBody
+//@   requires c != nil && resp != nil
+//@   assume resp.Body != nil   // net/http: the body of a client response is never nil
+//@   modifies *
+//@   ensures @a-read-cut-short-by-the-callers-cancellation-does-not-break-the-connection calls(failConn) >= 1 && callResult(readBody, 1, 1) != nil ==> calls(cancelled) >= 1 && callResult(cancelled, 1, 0) == nil
+//@   ensures @any-other-read-failure-fails-the-connection callResult(readBody, 1, 1) != nil && calls(cancelled) >= 1 && callResult(cancelled, 1, 0) == nil ==> calls(failConn) == 1
+//@   ensures @an-undecodable-reply-fails-the-connection calls(decode) == 1 && callResult(decode, 1, 1) != nil ==> calls(failConn) == 1
+//@   ensures @a-readable-reply-is-decoded-once calls(readBody) == 1 && (callResult(readBody, 1, 1) == nil ==> calls(decode) == 1 && callArg(decode, 1, 0) == callResult(readBody, 1, 0)) && (callResult(readBody, 1, 1) != nil ==> calls(decode) == 0)
+//@   ensures @the-body-is-closed calls(closeBody) == 1
+//@   ensures @a-good-reply-never-fails-the-connection callResult(readBody, 1, 1) == nil && calls(decode) == 1 && callResult(decode, 1, 1) == nil ==> calls(failConn) == 0
 // checkResponse classifies the HTTP answer to a client request: success exactly for 2xx; the transient statuses (429,
 // 500, 502, 503, 504) and a JSON-RPC error carried by a non-2xx body are per-request rejections (ErrRejected: the
 // connection stays usable); a 404 that is not such a rejection means the session is gone (ErrSessionMissing, so no
